@@ -111,6 +111,8 @@ SimpleCfg(cfg) ==
          /\ \A j \in DOMAIN p.reqs : p.reqs[j].min = 0 /\ p.reqs[j].key \in SimpleKeys
     /\ \A i \in DOMAIN cfg.types : \A j \in DOMAIN cfg.types[i].offerings :
          cfg.types[i].offerings[j].cpuOv = 0 /\ cfg.types[i].offerings[j].memOv = 0
+    \* every offering of one reservation id declares the same capacity (otherwise "exhausted" depends on which types the pools see)
+    /\ \A id \in Rids(cfg) : CapMax(cfg, id) = CapMin(cfg, id)
 \* value v of key k is admitted by the pod (selector and its one required term) / by the pool template
 PodAdm(cfg, e, k, v) ==
     /\ (k \in DOMAIN e.sel => e.sel[k] = v)
